@@ -70,6 +70,24 @@ func H07() {
 			check(xn != nil && xn.Name == "urn:"+lv.ns, "augmented nodes and their descendants are attributed to the augmenting module")
 		}
 	}
+	if sc.top == topActGrpInput || sc.top == topActGrpOutput || sc.top == topActGrpImplicit {
+		// the second use of the grouping is a copy of its own: what was augmented into the first
+		// copy's action must not show under the second
+		other := hcWalk(ms, []string{"root2", "act"})
+		check(other != nil && other.RPC != nil, "second copy of the action exists")
+		if other != nil && other.RPC != nil {
+			for _, lv := range sc.levels {
+				if lv.op == opAugment || lv.op == opAugment2 || lv.op == opAugmentSub {
+					for _, io := range []*Entry{other.RPC.Input, other.RPC.Output} {
+						if io != nil {
+							check(io.Dir[lv.name] == nil, "an augment is applied exactly once: not to the other copy of a grouping's action")
+						}
+					}
+					break
+				}
+			}
+		}
+	}
 	d1 := hDump(ms)
 	// the same sources in another load order, on a fresh set
 	ms2, lerrs2 := hLoad(h07Perm(sc.texts, 1+symChoice(3))...)
